@@ -70,27 +70,33 @@ package core
 //@ pred reqMd(in) := ite(in == nil, nil, in.Metadata)
 
 //@ func (*DrandDaemon).PartialBeacon(dd, ctx, in)
-//@   props C19
+//@   props C19 C14
+//@   flags lockcheck nopanic=C14 recovered
 //@   call PartialBeacon#0: assert [C19:PartialBeacon-served-by-named-chain] servedBy(dd, old(mdHash(reqMd(in))), old(mdID(reqMd(in))), arg0)
 
 //@ func (*DrandDaemon).PublicRand(dd, ctx, in)
-//@   props C19
+//@   props C19 C14
+//@   flags lockcheck nopanic=C14 recovered
 //@   call PublicRand#0: assert [C19:PublicRand-served-by-named-chain] servedBy(dd, old(mdHash(reqMd(in))), old(mdID(reqMd(in))), arg0)
 
 //@ func (*DrandDaemon).PublicRandStream(dd, in, stream)
-//@   props C19
+//@   props C19 C14
+//@   flags lockcheck nopanic=C14 recovered
 //@   call PublicRandStream#0: assert [C19:PublicRandStream-served-by-named-chain] servedBy(dd, old(mdHash(reqMd(in))), old(mdID(reqMd(in))), arg0)
 
 //@ func (*DrandDaemon).ChainInfo(dd, ctx, in)
-//@   props C19
+//@   props C19 C14
+//@   flags lockcheck nopanic=C14 recovered
 //@   call ChainInfo#0: assert [C19:ChainInfo-served-by-named-chain] servedBy(dd, old(mdHash(reqMd(in))), old(mdID(reqMd(in))), arg0)
 
 //@ func (*DrandDaemon).SyncChain(dd, in, stream)
-//@   props C19
+//@   props C19 C14
+//@   flags lockcheck nopanic=C14 recovered
 //@   call SyncChain#0: assert [C19:SyncChain-served-by-named-chain] servedBy(dd, old(mdHash(reqMd(in))), old(mdID(reqMd(in))), arg0)
 
 //@ func (*DrandDaemon).GetIdentity(dd, ctx, in)
-//@   props C19
+//@   props C19 C14
+//@   flags lockcheck nopanic=C14 recovered
 //@   call GetIdentity#0: assert [C19:GetIdentity-served-by-named-chain] servedBy(dd, old(mdHash(reqMd(in))), old(mdID(reqMd(in))), arg0)
 
 // ---- C13: what a restart does is decided by the completed record of the DKG database ---------------------------------
@@ -284,3 +290,45 @@ package core
 //@ func (*DrandDaemon).StartCheckChain(dd, in, stream)
 //@   props C19
 //@   call StartCheckChain#0: assert [C19:StartCheckChain-served-by-named-chain] servedBy(dd, old(mdHash(reqMd(in))), old(mdID(reqMd(in))), arg0)
+
+// ---- C14: the version check runs in front of the recovery interceptor: it must not panic at all ------------------------
+// NodeVersionValidator / NodeVersionStreamValidator are chained before grpcrecovery in the private listener, so a panic in
+// them is not contained. For every request value (any type, typed-nil metadata, missing version, missing prerelease):
+// no nil dereference, no failing type assertion. (No `recovered` flag: every panic point must be unreachable.)
+//@ func (*DrandDaemon).NodeVersionValidator(dd, ctx, req, info, handler) (response, err)
+//@   props C14
+//@   flags lockcheck nopanic=C14
+//@   requires [wf] dd.log != nil && handler != nil
+//@ func (*DrandDaemon).NodeVersionStreamValidator(dd, srv, ss, info, handler) (err)
+//@   props C14
+//@   flags lockcheck nopanic=C14
+//@   requires [wf] dd.log != nil && handler != nil
+//@ iface (MetadataGetter).GetMetadata(m) (md)
+//@   trusted generated protobuf getter: nil-safe on a typed nil receiver, changes nothing
+//@   modifies nothing
+//@ iface (github.com/drand/drand/v2/common/log.Logger).Named(l, s) (r)
+//@   trusted the zap-backed logger: Named wraps the receiver into a new logger value, never nil
+//@   modifies nothing
+//@   ensures r != nil
+//@ extern github.com/drand/drand/v2/common/tracer.NewSpan(ctx, name, opts) (c, span)
+//@   trusted otel Tracer.Start returns a context and a span, both non-nil (also for the no-op provider)
+//@   modifies nothing
+//@   ensures c != nil && span != nil
+
+// ---- C14: the chain-level endpoints behind the daemon's dispatch -----------------------------------------------------------
+// (flags recovered: these run under the recovery interceptor of the private listener; a contained panic must leave no
+// lock held. The handler object a started chain holds is well-formed as NewHandler builds it: assumed, [wf].)
+//@ func (*BeaconProcess).PartialBeacon(bp, ctx, in) (res, err)
+//@   props C14
+//@   flags lockcheck nopanic=C14 recovered
+//@   requires [wf] bp.beacon != nil ==> bp.beacon.l != nil && bp.beacon.chain != nil && bp.beacon.chain.CallbackStore != nil && bp.beacon.conf != nil && bp.beacon.conf.Clock != nil && bp.beacon.crypto != nil && bp.beacon.crypto.ThresholdScheme != nil && bp.beacon.crypto.group != nil && bp.beacon.crypto.DigestBeacon != nil
+//@ func (*BeaconProcess).ChainInfo(bp, ctx, in) (res, err)
+//@   props C14
+//@   flags lockcheck nopanic=C14 recovered
+//@ func (*BeaconProcess).SyncChain(bp, req, stream) (err)
+//@   props C14
+//@   flags lockcheck nopanic=C14 recovered
+//@   requires [wf] bp.log != nil
+//@ func (*BeaconProcess).GetIdentity(bp, ctx, in) (res, err)
+//@   props C14
+//@   flags lockcheck nopanic=C14 recovered
